@@ -155,12 +155,20 @@ def model_cases(rnd, events, errors, n):
         x = L.Add(name="add")([x, side])
       x = L.DepthwiseConv2D((2, 2), name="d")(x)
       x = L.BatchNormalization(epsilon=EPS, name="bn2")(x)
+      # a batch-norm behind a layer class that has NO folded counterpart stays a batch-norm
+      sep = rnd.random() < 0.4
+      if sep:
+        x = L.SeparableConv2D(3, (1, 1), name="s")(x)
+        x = L.BatchNormalization(epsilon=EPS, name="bn3")(x)
       m = tf.keras.Model(i, x)
-      for name in ("bn", "bn2"):
+      for name in ("bn", "bn2") + (("bn3",) if sep else ()):
         J = np.array([rnd.randint(0, 2) for _ in range(3)])
         set_named(m.get_layer(name), {"gamma": rints(rnd, (3,), 1, 4, EG), "beta": rints(rnd, (3,), -20, 20, EFB),
                                       "moving_mean": rints(rnd, (3,), -5, 5, EB),
                                       "moving_variance": (4.0 ** J - EPS).astype(np.float32)})
+      if sep:
+        lay = m.get_layer("s")
+        lay.set_weights([rints(rnd, (1, 1, 3, 1), -3, 3, 0), rints(rnd, (1, 1, 3, 3), -3, 3, 0), rints(rnd, (3,), -5, 5, EB)])
       for name, shp in (("c", (2, 2, 2, 3)), ("d", (2, 2, 3, 1))) + ((("side", (1, 1, 3, 3)),) if branch else ()):
         lay = m.get_layer(name)
         ws = lay.get_weights()
@@ -187,7 +195,7 @@ def model_cases(rnd, events, errors, n):
         elif lay.get_weights():
           lay.set_weights(m.get_layer(lay.name).get_weights())
       y1 = qm.predict(xin, verbose=0)
-      events.append({"kind": "model", "op": "convert_to_folded", "same": int(np.array_equal(y0, y1)), "branch": int(branch),
+      events.append({"kind": "model", "op": "convert_to_folded", "same": int(np.array_equal(y0, y1)), "branch": int(branch), "sep": int(sep),
                      "classes": [l.__class__.__name__ for l in qm.layers]})
     except Exception as e:
       errors.append({"k": "exc", "op": "convert_to_folded", "exc": repr(e)[:300]})
